@@ -10,7 +10,27 @@ import (
 var knobsConn = Knobs{MinInst: 1, MaxInst: 3, LatFrac: 0.25, WatchDelayH: 1, Faults: true, Takeover: true, Stops: true, StopPhases: true, Ext: true, Conn: true, LongH: true,
 	Promote: true, MinHorizonH: 12, MaxHorizonH: 30}
 
+// genConnTermChangePlan: the leader is cut off (disconnect notification, no reconnect ever), loses its term to
+// an outside deletion that its heartbeat discovers, and - the store itself stays reachable - re-acquires the
+// key before the grace period is over: at disconnect + grace it leads again, in another term, and the grace
+// mechanism has to demote it all the same ("if no reconnect notification arrived and it still leads").
+func genConnTermChangePlan(t *rapid.T) *Plan {
+	h := rapid.SampledFrom([]time.Duration{200 * time.Millisecond, 300 * time.Millisecond}).Draw(t, "H")
+	p := &Plan{Profile: "conn/term-change-inside-the-grace-period", H: h, TTL: 3 * h, SnapEvery: odd(h/3 + 53*time.Microsecond), Dice: []float64{0}}
+	p.Instances = []Inst{{ID: "m", Group: "g0", Monitored: true, Lat: []time.Duration{1, 3}, Promote: rapid.SampledFrom([]int{0, 1}).Draw(t, "promote"),
+		Grace: rapid.SampledFrom([]time.Duration{0, 0, 10 * h}).Draw(t, "grace")}}
+	t0 := odd(2*h + time.Duration(rapid.Int64Range(0, int64(2*h)).Draw(t, "t_disconnect")))
+	p.Timeline = []Action{{At: 1, Kind: ActStart, Inst: 0}, {At: t0, Kind: ActDisconnect, Inst: 0},
+		{At: t0 + odd(time.Duration(rapid.Int64Range(int64(time.Millisecond), int64(h)).Draw(t, "del_after"))), Kind: ActExtDelete, Inst: -1, Key: "g0"}}
+	p.Horizon = t0 + p.graceOf(0) + 6*h + p.TTL + 2*time.Second
+	sortTimeline(p)
+	return p
+}
+
 func genConnPlan(t *rapid.T) *Plan {
+	if rapid.IntRange(0, 7).Draw(t, "term_change_shape") == 0 {
+		return genConnTermChangePlan(t)
+	}
 	p := GenPlan(t, "conn", knobsConn)
 	// the first instance is always monitored and gets a structured notification sequence from the grammar (D|R|C)*
 	in := &p.Instances[0]
